@@ -24,6 +24,8 @@ PASS = re.compile(
     r"^std::sync::Arc::<T>::new$|^std::boxed::Box::<T>::new$|std::convert::AsRef<.*>>::as_ref$|"
     r"^<T as std::convert::Into<U>>::into$|^<T as std::convert::From<T>>::from$|"
     r"^<T as std::convert::TryInto<U>>::try_into$|^std::iter::IntoIterator::into_iter$|"
+    r"^std::string::String::(as_str|as_mut_str|into_boxed_str)$|std::string::ToString>::to_string$|"
+    r"std::borrow::ToOwned>::to_owned$|^std::str::<impl str>::to_owned$|^std::path::PathBuf::as_path$|"
     r"IntoIterator>::into_iter$|^std::iter::Iterator::(by_ref|rev|peekable|fuse)$")
 
 
